@@ -294,7 +294,7 @@ bool array_file_op(Ctx &c, const Op &op, int oi, vnadata_t **obj, ArrayModel *mo
 	std::vector<Spec> specs; std::string canon;
 	bool valid = null || parse_format_list(text, specs, canon);
 	int rc, e;
-	{ LibCall lc(c, &op); rc = vnadata_set_format(v, null ? nullptr : text.c_str()); lc.done(); e = lc.saved_errno; }
+	LIB_RETRY(c, &op, "vnadata_set_format", e, rc != 0, rc = vnadata_set_format(v, null ? nullptr : text.c_str()));
 	c.log(" set_format(%s) -> %d", null ? "NULL" : text.c_str(), rc);
 	if (c.violated) return true;
 	if (valid && rc != 0) { c.violate("model", "fmt:rc", strf("set_format(\"%s\") failed (errno %s)", text.c_str(), errno_name(e))); return true; }
@@ -330,10 +330,12 @@ bool array_file_op(Ctx &c, const Op &op, int oi, vnadata_t **obj, ArrayModel *mo
 	    lc.done();
 	    eck = lc.saved_errno;
 	}
-	int rc, e, crc = 0;
-	size_t ncb;
-	{
-	    LibCall lc(c, &op);
+	int rc = 0, e = 0, crc = 0;
+	size_t ncb = 0;
+	int pend_err = 0; bool pend_alloc = false;
+	for (int attempt = 0; attempt < 2; ++attempt) {
+	    LibCall lc(c, attempt == 0 ? &op : nullptr);
+	    crc = 0;
 	    if (use_fsave) {
 		FILE *fp = simfs_open(name.c_str(), "w");
 		rc = -1;
@@ -346,12 +348,19 @@ bool array_file_op(Ctx &c, const Op &op, int oi, vnadata_t **obj, ArrayModel *mo
 		    errno = se;
 		}
 	    } else rc = vnadata_save(v, name.c_str());
-	    fired = g_sim.fired_vna || g_sim.fired_yaml || g_sim.fired_write_err || g_sim.fired_close_err || g_sim.fired_open;
+	    fired = sim_fault_fired();
+	    bool alloc_only = sim_alloc_fault_fired() && !(g_sim.fired_write_err || g_sim.fired_close_err || g_sim.fired_open);
 	    ncb = g_sim.callbacks.size();
 	    lc.done();
 	    e = lc.saved_errno;
+	    // failed because of the injected fault: repeat once the fault is gone
+	    if (attempt == 0 && fired && (rc != 0 || crc != 0) && !c.violated) { c.count("probe.save_faulted"); fault_failed(c, "vnadata_save", e, alloc_only && rc != 0); pend_err = e; pend_alloc = alloc_only && rc != 0; continue; }
+	    if (attempt == 1 && rc == 0 && crc == 0) fault_recovered(c, "vnadata_save", pend_err, pend_alloc);
+	    if (fired) c.count("probe.save_ok_despite_fault");
+	    fired = false;
+	    break;
 	}
-	c.log(" cksave=%d %s(%s) -> %d close=%d fired=%d cb=%zu", ck_first ? rck : 9, use_fsave ? "fsave" : "save", name.c_str(), rc, crc, (int)fired, ncb);
+	c.log(" cksave=%d %s(%s) -> %d close=%d", ck_first ? rck : 9, use_fsave ? "fsave" : "save", name.c_str(), rc, crc);
 	if (c.violated) return true;
 	saved().erase(name);
 	if (!fired) {
@@ -391,12 +400,14 @@ bool array_file_op(Ctx &c, const Op &op, int oi, vnadata_t **obj, ArrayModel *mo
 	std::string name = op.S(0).empty() ? "d.npd" : op.S(0);
 	if (!simfs().count(name)) return true;
 	bool use_fload = op.I(1) != 0;
-	int rc, e;
-	bool fired;
-	size_t ncb; std::string cbmsg;
+	int rc = 0, e = 0;
+	bool fired = false;
+	size_t ncb = 0; std::string cbmsg;
 	int file_type_before = m.filetype;
-	{
-	    LibCall lc(c, &op);
+	int pend_err = 0; bool pend_alloc = false;
+	for (int attempt = 0; attempt < 2; ++attempt) {
+	    LibCall lc(c, attempt == 0 ? &op : nullptr);
+	    if (attempt > 0) vnadata_set_filetype(v, (vnadata_filetype_t)file_type_before);
 	    if (use_fload) {
 		FILE *fp = simfs_open(name.c_str(), "r");
 		rc = -1;
@@ -409,13 +420,20 @@ bool array_file_op(Ctx &c, const Op &op, int oi, vnadata_t **obj, ArrayModel *mo
 		    errno = se;
 		}
 	    } else rc = vnadata_load(v, name.c_str());
-	    fired = g_sim.fired_vna || g_sim.fired_read_eio || g_sim.fired_read_eof || g_sim.fired_open;
+	    bool storage = g_sim.fired_read_eio || g_sim.fired_read_eof || g_sim.fired_open;
+	    fired = sim_fault_fired();
 	    ncb = g_sim.callbacks.size();
+	    cbmsg.clear();
 	    if (ncb) cbmsg = g_sim.callbacks[0].msg;
 	    lc.done();
 	    e = lc.saved_errno;
+	    // a load that failed for lack of memory is repeated; storage faults change what is read
+	    if (attempt == 0 && fired && !storage && rc != 0 && !c.violated) { c.count("probe.load_faulted"); fault_failed(c, "vnadata_load", e, true); pend_err = e; pend_alloc = true; continue; }
+	    if (attempt == 1 && rc == 0) fault_recovered(c, "vnadata_load", pend_err, pend_alloc);
+	    if (!storage) fired = false;
+	    break;
 	}
-	c.log(" %s(%s) -> %d errno=%s fired=%d", use_fload ? "fload" : "load", name.c_str(), rc, rc ? errno_name(e) : "-", (int)fired);
+	c.log(" %s(%s) -> %d errno=%s", use_fload ? "fload" : "load", name.c_str(), rc, rc ? errno_name(e) : "-");
 	if (c.violated) return true;
 	auto it = saved().find(name);
 	bool good = it != saved().end() && it->second.good && !fired;
@@ -535,8 +553,10 @@ static const char *MATRIX_PARAMS[] = {"S", "T", "U", "Z", "Y", "H", "G", "A", "B
 void array_gen_file_ops(Rng &rng, Plan &plan, ArrayModel *m, const std::string &check, bool thorough)
 {
     bool faults = check.find("faulty") != std::string::npos;
+    bool c12 = check.compare(0, 3, "C12") == 0;
     auto mk = [](const char *k, std::initializer_list<long> i) { Op o; o.k = k; o.i = i; return o; };
     int cycles = (int)rng.range(1, thorough ? 4 : 3);
+    if (c12) cycles = 1;
     for (int cy = 0; cy < cycles; ++cy) {
 	int o = (int)rng.below(NOBJ);
 	// shape: mostly square S/Z/Y of 1..6 ports or a 2x2 of any type, sometimes Zin
